@@ -35,7 +35,7 @@ META = {
     'design_ref': 'DESIGN.md section 4 C15',
     'theorems': ['C15_repr_roundtrip', 'C15_repr_self_delimiting', 'C15_repr_line_safe',
                  'C15_bare_splice_partial', 'C15_bare_splice_refuted',
-                 'C15_closed_v0_load', 'C15_closed_v0_dump_partial', 'C15_v0_dump_refuted_unbound_default',
+                 'C15_closed_v0_load', 'C15_closed_v0_dump',
                  'C15_closed_env', 'C15_closed_v1_load',
                  'C15_show_nat_injective', 'C15_index_names_injective',
                  'C15_v0_dump_rename_invariant', 'C15_v0_load_no_collision',
@@ -324,15 +324,18 @@ class Gen:
         if self.engine == 'v0':
             if r.random() < 0.2:
                 meta['raise_unknown'] = True
-            if r.random() < 0.2:
-                meta['skip_defaults'] = True
-            if r.random() < 0.15:
-                meta['skip_if'] = r.choice([['truthy'], ['isnone'], ['eqc', '1.5']])
-            if r.random() < 0.12:
-                meta['skip_defaults_if'] = r.choice([['isnone'], ['falsy'], ['eqc', '1.5']])
         else:
             if r.random() < 0.3:
                 meta['v1_unknown'] = r.choice(['RAISE', 'WARN'])
+        # the dumper is shared by both engines
+        if r.random() < 0.2:
+            meta['skip_defaults'] = True
+        if r.random() < 0.15:
+            meta['skip_if'] = r.choice([['truthy'], ['isnone'], ['eqc', '1.5']])
+        has_ca_default = any(f.get('catch_all') and f.get('default') is not None
+                             for t in self.types if t['kind'] == 'dataclass' for f in t['fields'])
+        if r.random() < (0.6 if has_ca_default else 0.12):
+            meta['skip_defaults_if'] = r.choice([['isnone'], ['falsy'], ['eqc', '1.5']])
         spec = {'engine': self.engine, 'mixin': r.random() < 0.3, 'types': self.types, 'root': root['id'], 'meta': meta}
         spec['ops'] = self.ops(spec)
         return spec
@@ -457,9 +460,18 @@ def gen_env_model(r):
         if r.random() < 0.35 or (f['name'] not in kwargs and f.get('alias') not in environ and r.random() < 0.7):
             f['default'] = g.default_for(f['type'])
         fields.append(f)
+    meta = {}
+    if r.random() < 0.3:
+        # catch-all field with a default, often under Meta.skip_defaults_if (former F38 / C15c)
+        f = {'name': g.t('f'), 'catch_all': True, 'type': 'int', 'default': ['val', None]}
+        fields.append(f)
+        if r.random() < 0.5:
+            kwargs[f['name']] = {g.t('s'): 1}
+        if r.random() < 0.7:
+            meta['skip_defaults_if'] = r.choice([['isnone'], ['falsy']])
     fields.sort(key=lambda f: f.get('default') is not None)
     t = {'kind': 'dataclass', 'id': 'D1', 'name': g.t('T'), 'fields': fields, 'tag': None}
-    return {'engine': 'env', 'mixin': False, 'types': [t], 'root': 'D1', 'meta': {}, 'environ': environ,
+    return {'engine': 'env', 'mixin': False, 'types': [t], 'root': 'D1', 'meta': meta, 'environ': environ,
             'ops': [{'op': 'env', 'kwargs': kwargs}, {'op': 'env', 'kwargs': {}}]}
 
 
@@ -813,10 +825,6 @@ def classify(ctx, spec, res, what):
         for f in res.get('functions', []):
             if any(s.startswith('__') for s in f.get('shadow', [])) and f['file'].startswith('v1/'):
                 return 'C15b-v1-dunder-local-collision'
-    if eng != 'v1' and catchall_default_with_skip_defaults_if(spec):
-        return 'C15c-catchall-default-unbound'
-    if eng == 'v1' and catchall_default_with_skip_defaults_if(spec):
-        return 'C15c-catchall-default-unbound'
     return None
 
 
